@@ -850,6 +850,10 @@ func BaseForms() []BaseForm {
 		{Name: "first-server-without-path", Servers: []*Server{{URL: "https://h.example"}, {URL: "https://staging.example/v2"}}, Expected: ""},
 		{Name: "first-server-variable-host-only", Servers: []*Server{{URL: "https://{region}.api.example.com", Variables: map[string]*ServerVariable{"region": {Default: "eu"}}}, {URL: "/v3"}}, Expected: ""},
 		{Name: "server-variable-empty-default", Servers: []*Server{{URL: "https://h.example/api{version}", Variables: map[string]*ServerVariable{"version": {Default: ""}}}}, Expected: "/api"},
+		// (the base path is a path like r.URL.Path: decoded; the url of a server spells it escaped)
+		{Name: "server-path-percent-encoded", Servers: []*Server{{URL: "https://h.example/caf%C3%A9/v1"}}, Expected: "/caf\u00e9/v1"},
+		{Name: "server-path-non-ascii", Servers: []*Server{{URL: "https://h.example/caf\u00e9"}}, Expected: "/caf\u00e9"},
+		{Name: "server-path-with-space", Servers: []*Server{{URL: "https://h.example/my%20api/v2"}}, Expected: "/my api/v2"},
 		{Name: "server-variable-used-twice", Servers: []*Server{{URL: "https://{region}.api.example.com/{region}/{version}", Variables: map[string]*ServerVariable{"region": {Default: "eu"}, "version": {Default: "v2"}}}}, Expected: "/eu/v2"},
 	}
 }
